@@ -39,10 +39,11 @@ type PWrite struct {
 }
 
 type FD struct {
-	Ino    int
-	Flags  int
-	Off    int64
-	DirPos int
+	Ino     int
+	Flags   int
+	Off     int64
+	DirPos  int
+	DirLast string // last real name returned by getdents on this descriptor (cursor by name: see ReadDirent)
 }
 
 type MetaOp struct {
